@@ -38,7 +38,8 @@ Qed.
 Section Inv.
   Variable f0 : fs.
 
-  Record I1 (s : st) : Prop := mkI1 {
+  (* h: a location whose logged entry is momentarily absent (between unlink and re-creation) *)
+  Record I1 (h : option cpath) (s : st) : Prop := mkI1 {
     iW : wf_fs (s_fs s);
     iE : forall d, In d (s_dirs s) -> nd d = true /\ isabs d = true /\ dir_at (s_fs s) (cleanp d);
     iD : forall q m, lookup f0 q = Some (NDir m) -> exists m', lookup (s_fs s) q = Some (NDir m');
@@ -47,11 +48,11 @@ Section Inv.
                    mode_only (lookup f0 q) (lookup (s_fs s) q) \/
                    In q (logged (s_log s)) \/ In q (map cleanp (s_dirs s));
     iO : ord (s_dirs s);
-    iF : forall q, In q (logged (s_log s)) -> leaf (lookup (s_fs s) q);
+    iF : forall q, In q (logged (s_log s)) -> Some q <> h -> leaf (lookup (s_fs s) q);
     iN : forall p, In (LPath p) (s_log s) -> nd p = true /\ isabs p = true /\ cleanp p <> []
   }.
 
-  Lemma I1_init : wf_fs f0 -> I1 (mkSt f0 [LHeader; LHeader] []).
+  Lemma I1_init : wf_fs f0 -> I1 None (mkSt f0 [LHeader; LHeader] []).
   Proof.
     intros W. constructor; simpl; try tauto.
     - intros q m H. eauto.
@@ -59,7 +60,7 @@ Section Inv.
   Qed.
 
   (* a comment line changes nothing *)
-  Lemma I1_log_comment s l : logged [l] = [] -> (forall p, l <> LPath p) -> I1 s -> I1 (mkSt (s_fs s) (s_log s ++ [l]) (s_dirs s)).
+  Lemma I1_log_comment h s l : logged [l] = [] -> (forall p, l <> LPath p) -> I1 h s -> I1 h (mkSt (s_fs s) (s_log s ++ [l]) (s_dirs s)).
   Proof.
     intros Hl Hnp [W E D K J O F Nn]. constructor; simpl; auto.
     - intros q. rewrite logged_app, Hl, app_nil_r. apply J.
@@ -68,14 +69,14 @@ Section Inv.
   Qed.
 
   (* a file or link is (re)written at c and the log names it *)
-  Lemma I1_leaf_logged s f' p :
-    nd p = true -> isabs p = true -> cleanp p <> [] ->
-    I1 s -> chg_at (s_fs s) f' (cleanp p) -> leaf (lookup f' (cleanp p)) ->
+  Lemma I1_leaf_logged h s f' p :
+    nd p = true -> isabs p = true -> cleanp p <> [] -> (h = None \/ h = Some (cleanp p)) ->
+    I1 h s -> chg_at (s_fs s) f' (cleanp p) -> leaf (lookup f' (cleanp p)) ->
     ((lookup (s_fs s) (cleanp p) = None /\ cleanp p <> [] /\ dir_at (s_fs s) (removelast (cleanp p)))
      \/ leaf (lookup (s_fs s) (cleanp p))) ->
-    I1 (mkSt f' (s_log s ++ [LPath p]) (s_dirs s)).
+    I1 None (mkSt f' (s_log s ++ [LPath p]) (s_dirs s)).
   Proof.
-    intros Hnd Hab Hne [W E D K J O F Nn] C L' Hc. set (c := cleanp p) in *.
+    intros Hnd Hab Hne Hh [W E D K J O F Nn] C L' Hc. set (c := cleanp p) in *.
     assert (forall q, dir_at (s_fs s) q -> dir_at f' q) as Dd.
     { intros q Hq. destruct (cp_eqb q c) eqn:Eq.
       - apply cp_eqb_eq in Eq. subst q. destruct Hq as [Hq|[m Hm]]; [left; exact Hq|]. exfalso.
@@ -94,10 +95,11 @@ Section Inv.
       + apply cp_eqb_false in Eq. rewrite (C q Eq). destruct (J q) as [H|[H|[H|[H|H]]]]; auto.
         right. right. right. left. apply in_or_app. left. exact H.
     - exact O.
-    - intros q Hq. rewrite logged_app in Hq. simpl in Hq. apply in_app_or in Hq.
+    - intros q Hq _. rewrite logged_app in Hq. simpl in Hq. apply in_app_or in Hq.
       destruct (cp_eqb q c) eqn:Eq.
       + apply cp_eqb_eq in Eq. subst q. exact L'.
-      + apply cp_eqb_false in Eq. rewrite (C q Eq). destruct Hq as [Hq|[Hq|[]]]; [apply F; exact Hq | exfalso; apply Eq; symmetry; exact Hq].
+      + apply cp_eqb_false in Eq. rewrite (C q Eq). destruct Hq as [Hq|[Hq|[]]]; [|exfalso; apply Eq; symmetry; exact Hq].
+        apply F; [exact Hq|]. destruct Hh as [Hh|Hh]; rewrite Hh; [discriminate|]. intros X. inversion X. contradiction.
     - intros p0 Hp. apply in_app_or in Hp as [Hp|[Hp|[]]]; [apply Nn; exact Hp|]. inversion Hp; subst. auto.
   Qed.
 
@@ -107,8 +109,8 @@ Section Inv.
     destruct a as [[| |]|], b as [[| |]|], c as [[| |]|]; simpl; try tauto. intros [-> ->] [-> ->]. auto.
   Qed.
 
-  Lemma I1_mode s f' c :
-    I1 s -> chg_at (s_fs s) f' c -> mode_only (lookup (s_fs s) c) (lookup f' c) -> I1 (with_fs s f').
+  Lemma I1_mode h s f' c :
+    I1 h s -> chg_at (s_fs s) f' c -> mode_only (lookup (s_fs s) c) (lookup f' c) -> I1 h (with_fs s f').
   Proof.
     intros [W E D K J O F Nn] C Mo.
     assert (forall q, dir_at (s_fs s) q -> dir_at f' q) as Dd.
@@ -132,9 +134,32 @@ Section Inv.
         * right. right. left. eapply mode_only_trans; eassumption.
       + apply cp_eqb_false in Eq. rewrite (C q Eq). apply J.
     - exact O.
-    - intros q Hq. specialize (F q Hq). destruct (cp_eqb q c) eqn:Eq.
+    - intros q Hq Hne. specialize (F q Hq Hne). destruct (cp_eqb q c) eqn:Eq.
       + apply cp_eqb_eq in Eq. subst q. destruct (lookup (s_fs s) c) as [[| |]|], (lookup f' c) as [[| |]|]; simpl in *; tauto.
       + apply cp_eqb_false in Eq. rewrite (C q Eq). exact F.
+    - exact Nn.
+  Qed.
+
+  (* a leaf is unlinked and will be re-created at once: the invariant holds with a hole at c *)
+  Lemma I1_open s f1 c :
+    I1 None s -> chg_at (s_fs s) f1 c -> leaf (lookup (s_fs s) c) -> lookup f1 c = None -> I1 (Some c) (with_fs s f1).
+  Proof.
+    intros [W E D K J O F Nn] C Lf N1.
+    assert (forall q, dir_at (s_fs s) q -> dir_at f1 q) as Dd.
+    { intros q Hq. destruct (cp_eqb q c) eqn:Eq.
+      - apply cp_eqb_eq in Eq. subst q. destruct Hq as [Hq|[m Hm]]; [left; exact Hq|]. rewrite Hm in Lf. destruct Lf.
+      - apply cp_eqb_false in Eq. eapply dir_at_chg; eauto. }
+    constructor; simpl.
+    - eapply wf_leaf; eauto. rewrite N1. exact I.
+    - intros d Hd. destruct (E d Hd) as [A [B Dr]]. auto.
+    - intros q m H. destruct (D q m H) as [m' Hm']. exists m'. rewrite C; [exact Hm'|].
+      intros ->. rewrite Hm' in Lf. destruct Lf.
+    - exact K.
+    - intros q. destruct (cp_eqb q c) eqn:Eq.
+      + apply cp_eqb_eq in Eq. subst q. left. exact N1.
+      + apply cp_eqb_false in Eq. rewrite (C q Eq). apply J.
+    - exact O.
+    - intros q Hq Hne. rewrite C; [apply F; [exact Hq | discriminate]|]. intros ->. apply Hne. reflexivity.
     - exact Nn.
   Qed.
 
@@ -150,8 +175,8 @@ Section Inv.
   Qed.
 
   (* DirMaker.makedirs in a real run *)
-  Lemma I1_dm_makedirs c p eo s s' :
-    c_dry c = false -> nd p = true -> isabs p = true -> I1 s -> dm_makedirs c p eo s = (s', Ok tt) -> I1 s'.
+  Lemma I1_dm_makedirs h c p eo s s' :
+    c_dry c = false -> nd p = true -> isabs p = true -> I1 h s -> dm_makedirs c p eo s = (s', Ok tt) -> I1 h s'.
   Proof.
     intros Dry Hd Ha [W E D K J O F Nn] H. unfold dm_makedirs in H. rewrite Dry in H.
     pose proof (nd_nodd _ Hd) as Hn.
@@ -190,7 +215,7 @@ Section Inv.
       intros a b Ha0 Hb [P N]. apply (NotEx b Hb). destruct (SP b Hb) as [N1 [N2 _]].
       apply q_exists_dir; [exact W | apply nd_nodd; exact N1 | exact N2|].
       destruct (E a Ha0) as [_ [_ Da]]. eapply dir_at_prefix; eauto.
-    - intros q Hq. specialize (F q Hq). destruct (MK q) as [Eq|[N _]]; [rewrite Eq; exact F | rewrite N in F; destruct F].
+    - intros q Hq Hne. specialize (F q Hq Hne). destruct (MK q) as [Eq|[N _]]; [rewrite Eq; exact F | rewrite N in F; destruct F].
     - exact Nn.
   Qed.
 End Inv.
